@@ -29,6 +29,9 @@ Section Model.
   Variable kltb : K -> K -> bool.      (* the order of ToEncodingObj / Validate *)
   Variable veqb : V -> V -> bool.
   Variable deqb : D -> D -> bool.
+  Variable A : Type.                   (* account address *)
+  Variable acct_of : K -> A.             (* the account a flattened key belongs to *)
+  Variable aeqb : A -> A -> bool.
 
   Definition view := K -> V.
 
@@ -167,12 +170,44 @@ Section Model.
     | [] => acc
     | (i, x) :: r => if i <? limit then search_latest r limit (Some x) else acc
     end.
-  (* Lookup.Storage / Lookup.AccountChanges / Lookup.Code, one flattened key *)
-  Definition bal_lookup (b : bal) (k : K) (limit : N) : option V :=
-    match aget k (b_w b) with
-    | Some es => search_latest es limit None
-    | None => None
+  (* BlockAccessList.Lookup(): the index  map[address]*accountLookup  the parallel
+     processor reads through.  Go indexes EVERY account of the list and hands the
+     accountLookup the account's balance, nonce and code change lists and a map
+     slot -> writes; flattened: every change list of the account, whatever its kind,
+     under its key.  Map assignment: a later entry for the same address / key
+     overwrites.  (Read-only accounts are indexed by Go with empty lists; a lookup in
+     them finds nothing, exactly as for an absent account.  Go replaces the whole
+     accountLookup when an address occurs twice; such lists fail Validate and are
+     never looked up.) *)
+  Definition lookup_t := list (A * list (K * list (N * V))).
+  Fixpoint aaget (a : A) (l : lookup_t) : option (list (K * list (N * V))) :=
+    match l with
+    | [] => None
+    | (a0, x) :: r => if aeqb a0 a then Some x else aaget a r
     end.
+  Fixpoint aaset (a : A) (x : list (K * list (N * V))) (l : lookup_t) : lookup_t :=
+    match l with
+    | [] => [(a, x)]
+    | (a0, x0) :: r => if aeqb a0 a then (a0, x) :: r else (a0, x0) :: aaset a x r
+    end.
+  Definition index_add (l : lookup_t) (kes : K * list (N * V)) : lookup_t :=
+    let a := acct_of (fst kes) in
+    let al := match aaget a l with Some x => x | None => [] end in
+    aaset a (aset (fst kes) (snd kes) al) l.
+  Definition build_lookup (b : bal) : lookup_t := fold_left index_add (b_w b) [].
+
+  (* Lookup.Storage / Lookup.AccountChanges / Lookup.Code, one flattened key: find the
+     account, then the key's change list, then searchLatest *)
+  Definition lookup_key (l : lookup_t) (k : K) (limit : N) : option V :=
+    match aaget (acct_of k) l with
+    | None => None
+    | Some al => match aget k al with
+                 | Some es => search_latest es limit None
+                 | None => None
+                 end
+    end.
+  Definition bal_lookup (b : bal) (k : K) (limit : N) : option V :=
+    lookup_key (build_lookup b) k limit.
   (* ReaderWithBlockLevelAccessList.Account/Storage/Code with txIndex = limit:
      the looked-up mutation if there is one, else the base (parent-state) value. *)
   Definition overlay (pre : view) (b : bal) (limit : N) : view :=
@@ -477,4 +512,6 @@ Definition digest_eqb (a b : digest) : bool :=
   | DRoot x, DRoot y => list_eqb bytes_eqb x y
   | _, _ => false
   end.
+(* the account of a flattened key: its first 20 bytes *)
+Definition key_acct (k : bkey) : bkey := firstn 20 k.
 Definition root_on (keys : list bkey) (s : view bkey bkey) : digest := DRoot (map s keys).
